@@ -93,11 +93,13 @@ def parseTree (s : String) : Option (List Fs.Path × List Fs.Path) :=
 def applyOutcome (root : Fs.Root) (dirs files : List Fs.Path) (b : Bytes) : String × List String :=
   let fs : Fs.FS := { root := root, dirs := if root == .dir then dirs else [], files := if root == .dir then files else [] }
   let m := Patch.apply miniInflate (2 ^ 24) fs b
-  let tags := if m.peak > budget b.length then ["kf:patch-block-decompressed-alloc"] else []
+  -- never taken (`c17_apply_alloc`); kept so that a model that did over-request would disagree with
+  -- the implementation's measured answer instead of passing silently
+  let over := if m.peak > budget b.length then " overalloc:model" else ""
   match m.res with
-  | .ok _ => ("ok", tags)
-  | .fail => ("err", tags)
-  | .fault f => ("fault:" ++ f.name, tags)
+  | .ok _ => ("ok" ++ over, [])
+  | .fail => ("err" ++ over, [])
+  | .fault f => ("fault:" ++ f.name ++ over, [])
 
 /-- one case line in, one answer line out (see `Base/Proto.lean`) -/
 def handle (line : String) : String :=
